@@ -4,6 +4,10 @@ not from the library's compiled automata or its own predicates."""
 import re
 
 
+class SpecError(ValueError):
+    pass
+
+
 class SpecValidator:
     def __init__(self, schema):
         self.schema = schema
@@ -55,21 +59,90 @@ class SpecValidator:
         return out
 
     def compile(self, expr):
+        """content expression -> (compiled Python regex over one char per node type, inline_content);
+        an independent recursive-descent reading of the documented grammar (every sub-expression is
+        wrapped in a non-capturing group so that stacked subscripts such as `a+*` are legal regexes)"""
         toks = [t for t in re.findall(r"\w+|\W", expr) if t.strip()]
-        out = []
-        inline = None
-        i = 0
-        while i < len(toks):
-            t = toks[i]
-            if re.match(r"\w", t) and not (out and out[-1].endswith("{")) and not (i > 0 and toks[i - 1] in ("{", ",")):
-                names = [t] if t in self.char else self.groups.get(t, [])
-                if inline is None and names:
-                    inline = self.inline[names[0]]
-                out.append("[" + "".join(self.char[n] for n in names) + "]")
-            else:
-                out.append(t)
-            i += 1
-        return re.compile("".join(out) if out else ""), bool(inline)
+        pos = [0]
+        inline = [None]
+
+        def peek():
+            return toks[pos[0]] if pos[0] < len(toks) else None
+
+        def eat(t):
+            if peek() == t:
+                pos[0] += 1
+                return True
+            return False
+
+        def p_expr():
+            parts = [p_seq()]
+            while eat("|"):
+                parts.append(p_seq())
+            return "(?:" + "|".join(parts) + ")"
+
+        def p_seq():
+            parts = [p_sub()]
+            while peek() is not None and peek() not in (")", "|"):
+                parts.append(p_sub())
+            return "(?:" + "".join(parts) + ")"
+
+        def p_num():
+            t = peek()
+            if t is None or not t.isdigit():
+                raise SpecError("number expected")
+            pos[0] += 1
+            return int(t)
+
+        def p_sub():
+            e = p_atom()
+            while True:
+                if eat("+"):
+                    e = "(?:" + e + ")+"
+                elif eat("*"):
+                    e = "(?:" + e + ")*"
+                elif eat("?"):
+                    e = "(?:" + e + ")?"
+                elif eat("{"):
+                    lo = p_num()
+                    hi = lo
+                    if eat(","):
+                        hi = None if peek() == "}" else p_num()
+                    if not eat("}"):
+                        raise SpecError("unclosed range")
+                    if hi is None:
+                        e = "(?:" + e + "){%d,}" % lo
+                    else:
+                        e = "(?:" + e + "){%d,%d}" % (lo, max(lo, hi))
+                else:
+                    return e
+
+        def p_atom():
+            if eat("("):
+                e = p_expr()
+                if not eat(")"):
+                    raise SpecError("missing )")
+                return e
+            t = peek()
+            if t is None or not re.match(r"\w", t):
+                raise SpecError("unexpected token")
+            pos[0] += 1
+            names = [t] if t in self.char else self.groups.get(t, [])
+            if not names:
+                raise SpecError("unknown name " + t)
+            for n in names:
+                if inline[0] is None:
+                    inline[0] = self.inline[n]
+                elif inline[0] != self.inline[n]:
+                    raise SpecError("mixing inline and block")
+            return "[" + "".join(self.char[n] for n in names) + "]"
+
+        if not toks:
+            return re.compile(""), False
+        rx = p_expr()
+        if pos[0] != len(toks):
+            raise SpecError("trailing text")
+        return re.compile(rx), bool(inline[0])
 
     # ---------------------------------------------------------------------------------------
     def marks_problem(self, marks):
